@@ -396,7 +396,7 @@ def run_tlc(module: str, cfg: str | None = None, *, spec_dir: Path | str = SPEC,
             res.violated, res.kind = "temporal", "temporal"
         elif "Deadlock reached" in out:
             res.violated, res.kind = "deadlock", "deadlock"
-        elif re.search(r"Postcondition|POSTCONDITION", out) and "violated" in out:
+        elif re.search(r"Postcondition \S+ .*is false", out) or (re.search(r"Postcondition|POSTCONDITION", out) and "violated" in out):
             res.violated, res.kind = "postcondition", "postcondition"
         elif "The first argument of Assert evaluated to FALSE" in out:
             res.violated, res.kind = "assert", "assert"
@@ -436,3 +436,35 @@ def sany(module_path: Path) -> tuple[bool, str]:
     ok = p.returncode == 0 and "Semantic errors" not in p.stdout and "Parsing or semantic analysis failed" not in p.stdout \
         and "Could not parse" not in p.stdout and "***Parse Error***" not in p.stdout
     return ok, p.stdout + p.stderr
+
+
+def tla_lit(v):
+    """python value -> TLA+ literal usable in a cfg file (ints, bools, strings, sets/lists of those)"""
+    if isinstance(v, bool):
+        return "TRUE" if v else "FALSE"
+    if isinstance(v, int):
+        return str(v)
+    if isinstance(v, str):
+        return '"' + v + '"'
+    if isinstance(v, (set, frozenset, list, tuple)):
+        return "{" + ", ".join(tla_lit(x) for x in (sorted(v) if isinstance(v, (set, frozenset)) else v)) + "}"
+    raise TypeError(v)
+
+
+def write_cfg(path, constants: dict, spec="Spec", invariants=(), properties=(), constraints=(), action_constraints=(),
+              postcondition=None, view=None, raw=()):
+    lines = ["CONSTANTS"]
+    for k, v in constants.items():
+        lines.append(f"  {k} = {tla_lit(v)}" if not (isinstance(v, str) and v.startswith("<-")) else f"  {k} {v}")
+    lines.append(f"SPECIFICATION {spec}")
+    lines += [f"INVARIANT {i}" for i in invariants]
+    lines += [f"PROPERTY {p}" for p in properties]
+    lines += [f"CONSTRAINT {c}" for c in constraints]
+    lines += [f"ACTION_CONSTRAINT {c}" for c in action_constraints]
+    if postcondition:
+        lines.append(f"POSTCONDITION {postcondition}")
+    if view:
+        lines.append(f"VIEW {view}")
+    lines += list(raw)
+    Path(path).write_text("\n".join(lines) + "\n")
+    return str(path)
